@@ -12,7 +12,8 @@
         -> one observation per attempt, joined by " || "
     MANIFEST := <nl> {DREF size} DREF size      DREF := e | b | <64 hex>
     ATTEMPT  := ms <n> {REPLY} tok <n> {0|1} ls <n> {dig head <n> {REPLY} direct <n> {REPLY} chunks <np> {<n> {CHUNK}}}
-    REPLY    := pass <served|badjson | n | redirect|redirect200|noloc|badstatus> | neterr | unauth <hex> | notfound | status
+    REPLY    := pass <served|badjson | n | redirect|redirect200|noloc|noloc307|noloc301|badstatus[301|303|308]|badloc|redirectdead>
+                | neterr | unauth <hex> | notfound | status | follow
     CHUNK    := neterr | body <honest|full|junk hex|flip i> <cut: -|n> <eof|ueof|reset|stall>
 
   `hash` of the model is instantiated with SHA-256 (implemented here, not in the model).
@@ -118,6 +119,7 @@ def pReply {α} (p : TP α) : TP (Reply α) := do
   | "unauth" => return .unauth (← hex)
   | "notfound" => return .notfound
   | "status" => return .status
+  | "follow" => return .follow
   | _ => failure
 
 def pMBody : TP MBody := do
@@ -132,8 +134,15 @@ def pDir : TP DirRep := do
   match t with
   | "redirect" => pure .redirect
   | "redirect200" => pure .redirect
-  | "noloc" => pure .noloc
-  | "badstatus" => pure .badstatus
+  | "noloc" => pure .noloc          -- 200 without Location
+  | "noloc307" => pure .noloc       -- 307 without Location
+  | "noloc301" => pure .badstatus   -- 301 without Location: handed back, not a 307/200
+  | "badstatus" => pure .badstatus  -- 302 to another host
+  | "badstatus301" => pure .badstatus
+  | "badstatus303" => pure .badstatus
+  | "badstatus308" => pure .badstatus
+  | "badloc" => pure .badloc        -- 307 with a Location that does not parse
+  | "redirectdead" => pure .redirectDead
   | _ => failure
 
 def pChunk : TP ChunkReply := do
